@@ -417,6 +417,50 @@ func (h spyHarness) Exec(p *simkit.Program) *simkit.Result {
 			}
 			log.Cut(fmt.Sprintf("%d %s", i, st))
 		}
+		if raceBuild && !stuck {
+			// race-detector tier only: really concurrent publishers and subscription churn. The churning
+			// subscribers use a filter that matches nothing, so no publication can block on them (that
+			// would be the open known finding); what is exercised is the registry being read by Publish
+			// while registrations and removals write it.
+			for _, x := range subs {
+				x.stream.mu.Lock()
+				if x.stream.stalled {
+					x.stream.stalled = false
+					close(x.stream.gate)
+				}
+				x.stream.mu.Unlock()
+			}
+			synctest.Wait()
+			var wg sync.WaitGroup
+			for pi := 0; pi < 3; pi++ {
+				wg.Add(1)
+				go func(pi int) {
+					defer wg.Done()
+					for k := 0; k < 25; k++ {
+						_ = s.Publish(spyVAA(pi, int64(10000+100*pi+k)))
+					}
+				}(pi)
+			}
+			for ci := 0; ci < 3; ci++ {
+				wg.Add(1)
+				go func(ci int) {
+					defer wg.Done()
+					for k := 0; k < 12; k++ {
+						ctx, cancel := context.WithCancel(context.Background())
+						st := &fakeStream{ctx: ctx, cancel: cancel, gate: make(chan struct{})}
+						req := &spyv1.SubscribeSignedVAARequest{Filters: []*spyv1.FilterEntry{{Filter: &spyv1.FilterEntry_EmitterFilter{EmitterFilter: &spyv1.EmitterFilter{
+							ChainId: spyv1ChainID(9999), EmitterAddress: hex.EncodeToString(spyEmitters[0].addr[:])}}}}}
+						done := make(chan struct{})
+						go func() { _ = s.SubscribeSignedVAA(req, st); close(done) }()
+						time.Sleep(time.Duration(1+ci) * time.Microsecond)
+						cancel()
+						<-done
+					}
+				}(ci)
+			}
+			wg.Wait()
+			stats.Probe("concurrent-storm")
+		}
 		res.SimNs = int64(time.Since(start))
 		if !stuck {
 			for _, x := range subs {
